@@ -131,6 +131,9 @@ type ipFault struct {
 }
 
 type ipRun struct {
+	state     string // the server's view of the session after setup (ConnInfo of connection 1, taken before closing)
+	pubProto  int
+	user      string
 	res       string
 	setup     [][]string // setup commands logged on the connection, in order
 	classes   []byte     // reply class per setup command
@@ -144,11 +147,19 @@ func isSetup(argv []string) bool {
 }
 
 // runConn performs one connection attempt on a fresh server.
+// openDefault: the server's default user needs no password (ACL users exist next to an open default
+// user), so a connection that does not authenticate is served as `default`
 func runConn(o ipOpt, reject bool, f ipFault, public bool) ipRun {
+	return runConnOn(o, reject, f, public, false)
+}
+
+func runConnOn(o ipOpt, reject bool, f ipFault, public, openDefault bool) ipRun {
 	u, p := o.creds()
 	users := map[string]string{}
 	if u != "" || p != "" {
-		users["default"] = "srvpw"
+		if !openDefault {
+			users["default"] = "srvpw"
+		}
 		if u == "" {
 			users["default"] = p
 		} else {
@@ -210,6 +221,7 @@ func (run *ipRun) connect(o ipOpt, srv *fakeredis.Server, co rueidis.ClientOptio
 		if c, err = rueidis.NewClient(co); err == nil {
 			v, e := c.Do(ctx, echo).ToString()
 			run.served = e == nil && v == "user"
+			run.snapshot(srv)
 		}
 		if c != nil {
 			c.Close()
@@ -220,6 +232,7 @@ func (run *ipRun) connect(o ipOpt, srv *fakeredis.Server, co rueidis.ClientOptio
 		if err == nil {
 			v, e := vp.Do(ctx, echo).ToString()
 			run.served = e == nil && v == "user"
+			run.snapshot(srv)
 			if vp.IsRESP2() {
 				run.proto = 2
 			} else {
@@ -227,6 +240,15 @@ func (run *ipRun) connect(o ipOpt, srv *fakeredis.Server, co rueidis.ClientOptio
 			}
 			vp.Close()
 		}
+	}
+}
+
+// snapshot reads the server's view of connection 1 while it is still open.
+func (run *ipRun) snapshot(srv *fakeredis.Server) {
+	if ci, ok := srv.Conn(1); ok {
+		run.pubProto, run.user = ci.Proto, ci.User
+		run.state = fmt.Sprintf("user=%s db=%d name=%s trk=%s optin=%s ro=%s nt=%s ne=%s lib=%s ver=%s", ci.User, ci.DB, dash(ci.Name),
+			b01(ci.Tracking), b01(ci.Tracking && ci.OptIn), b01(ci.ReadOnly), b01(ci.NoTouch), b01(ci.NoEvict), dash(ci.LibName), dash(ci.LibVer))
 	}
 }
 
@@ -266,9 +288,7 @@ func (run *ipRun) collect(srv *fakeredis.Server, public bool) {
 		run.classes = append(run.classes, cl)
 	}
 	if public && run.res == "ok" {
-		if ci, ok := srv.Conn(1); ok {
-			run.proto = ci.Proto
-		}
+		run.proto = run.pubProto
 	}
 	if run.res == "ok" {
 		run.res = fmt.Sprintf("ok%d", run.proto)
@@ -302,7 +322,14 @@ func splitAttempts(setup [][]string) int {
 }
 
 func (c *Ctx) ipCase(o ipOpt, reject bool, f ipFault, public bool) {
-	run := runConn(o, reject, f, public)
+	c.ipCaseOn(o, reject, f, public, false)
+	if u, _ := o.creds(); u != "" && f.at < 0 && o.Fn != "err" {
+		c.ipCaseOn(o, reject, f, public, true) // same options against a server whose default user is open
+	}
+}
+
+func (c *Ctx) ipCaseOn(o ipOpt, reject bool, f ipFault, public, openDefault bool) {
+	run := runConnOn(o, reject, f, public, openDefault)
 	k := splitAttempts(run.setup)
 	if f.kind == "x" && f.at >= 0 && f.at < len(run.setup) { // the drop hit a setup command (not the user command after them)
 		// a dropped connection: DoMulti's abort path hands the SAME transport error to every member of
@@ -337,6 +364,20 @@ func (c *Ctx) ipCase(o ipOpt, reject bool, f ipFault, public bool) {
 	if realistic {
 		orc := fmt.Sprintf("!sess %s served=%s proto=%d log=%s rep=%s", o.words(), b01(run.served), run.proto, cmdsText(run.setup), dash(string(run.classes)))
 		c.Emit(orc, "ok", false)
+	}
+	if run.served && f.at < 0 {
+		// the session the server sees must be the one the options demand (judged on the server's state)
+		c.Emit("!state "+o.words(), run.state, false)
+		if u, _ := o.creds(); u != "" && run.user != u {
+			key := "init:credentials-not-applied"
+			if _, p := o.creds(); p == "" {
+				key += ":username-without-password"
+			}
+			c.Fail(key, op, fmt.Sprintf("Username %q is configured but the served connection is authenticated as %q", u, run.user))
+		}
+		if openDefault {
+			c.Hit("open-default-server")
+		}
 	}
 	if run.res == "panic" {
 		c.Fail("initplan:panic:az-info-on-nil-map", op, "_newPipe panics (assignment to entry in nil map, p.info) when HELLO is rejected and INFO SERVER reports availability_zone")
